@@ -30,7 +30,7 @@ CLAIM = {
             "top-level info table; (R04.6) tiny_v2_diff::read stores the line's action as info and the comment action into the javadoc of "
             "the same level on all four levels (one comment only), MappingsDiff::diff fills info/javadoc/children from the same level; "
             "(R04.7) NodeInfo::new of the 9 node types stores info with no javadoc and empty children, FromKey::from_key puts the key's name "
-            "into the first namespace only, mappings_diff::add_child refuses a duplicate key. Also: every successful return of change_name is dominated by the old-value check (no early Ok); the generated diff is returned unpruned or pruned by a predicate over info, javadoc and every child map; tiny_v2_diff::read hands the physical line to the tokeniser verbatim.",
+            "into the first namespace only, mappings_diff::add_child refuses a duplicate key. Also: every successful return of change_name is dominated by the old-value check (no early Ok); the generated diff is returned unpruned or pruned by a predicate over info, javadoc and every child map; tiny_v2_diff::read hands the physical line to the tokeniser verbatim (closure, nested fn item or private helper). Normal forms: `while let Some(p) = it.next()` is the `for` loop it desugars from; the `match (a, b)` of TinyLine::action may live in a private helper that is inlined; further parameters of gen_diff_names / gen_diff_javadoc stand for the one constant every call site of the crate passes.",
     "note": "Not decided: apply(diff(A,B),A) = B for all A,B, equality through the textual .tinydiff form (there is no tinydiff writer "
             "in the tree), atomicity of refusal beyond the local result map, IndexMap ordering effects of swap_remove. "
             "Trusted: rustc HIR/typeck/const-eval; spec/c04_tables.json (transcribed from the property statement and doc comments).",
@@ -408,6 +408,25 @@ def comb_cells():
     return cells
 
 
+def extra_args(q, fn, first=1):
+    """Abstract values for the parameters of a helper from index `first` on (a helper that was generalised by a parameter): the one
+    evaluated constant that every call site of the crate passes there (literal or named constant, consts arrive evaluated) when the
+    helper is not public, otherwise a symbol (the tables evaluated with it then show the symbol instead of the expected constant)."""
+    sites = [n for b in q.bodies if isinstance(b.get("body"), dict) for n in H.walk(b["body"])
+             if n.get("k") == "call" and fn["key"] in ((n.get("callee") or {}).get("key"), (n.get("callee") or {}).get("inst_key"))]
+    out = []
+    for i in range(first, len(fn.get("params") or [])):
+        vs = set()
+        for c in sites:
+            v = H.const_value(c["args"][i]) if i < len(c["args"]) else None
+            vs.add(("b", v) if isinstance(v, bool) else ("i", v) if isinstance(v, int) else ("s", v) if isinstance(v, str) else None)
+        if sites and len(vs) == 1 and None not in vs and (fn.get("vis") or "Public") != "Public":
+            out.append(vs.pop())
+        else:
+            out.append(S("arg%d" % i))
+    return out
+
+
 def r04_3(q, R, spec):
     rid = "R04.3"
     R.rule(rid, "diff generation: javadoc A(Some a)->Remove(a), B(Some b)->Add(b), AB->from_tuple(a,b), absent->None; names A->Remove, B->Add, "
@@ -423,15 +442,16 @@ def r04_3(q, R, spec):
         ms = [n for n in H.walk(fn["body"], into_closures=False) if n.get("k") == "match" and COMB in (n["scrut"].get("ty") or "")]
         if not R.anchor(rid, "%s: match over Combination<Option<..>>" % name, len(ms) == 1, sp=fn["sp"]):
             continue
+        extra = extra_args(q, fn)      # `gen_diff_names(ab, DIFF_NAMESPACE)`: further parameters stand for the constant every caller passes
         for cname, cv in comb_cells():
             pe = U.PathEval(inline=inline, scrut_override={id(ms[0]): cv})
-            out, env = pe.run_body(fn, [S("ab")])
+            out, env = pe.run_body(fn, [S("ab")] + extra)
             o = U.outcome_value(out)
             got = "Err" if o[0] == "err" else strip(T.show(o[1]))
             R.inst(rid, "%s:%s" % (name, cname), got == spec[name][cname], sp=fn["sp"], expect=spec[name][cname], got=got)
         # the scrutinee is ab.map(<same-level projection>)
         pe = U.PathEval(hooks={"map": lambda args, n, pe: None})
-        pe.run_body(fn, [S("ab")])
+        pe.run_body(fn, [S("ab")] + extra)
         maps = [e for e in pe.calls_named("map") if COMB in (e["path"] or "") and e["args"] and e["args"][0] == S("ab")]
         R.inst(rid, "%s:scrutinee-is-ab.map" % name, len(maps) == 1, sp=fn["sp"], got=[e["path"] for e in pe.calls_named("map")])
         if name == "gen_diff_names" and len(maps) == 1:
@@ -597,6 +617,22 @@ def r04_3(q, R, spec):
 
 
 # ------------------------------------------------------------------------------------ R04.4
+class WatchEval(U.PathEval):
+    """PathEval that remembers the (first) value of the expression nodes in `watch` (by identity), wherever they are evaluated:
+    in the function itself or in a helper inlined into it."""
+
+    def __init__(self, watch, **kw):
+        super().__init__(**kw)
+        self.watch = set(watch)
+        self.watched = {}
+
+    def ev(self, n, env):
+        v = super().ev(n, env)
+        if id(n) in self.watch and id(n) not in self.watched:
+            self.watched[id(n)] = v
+        return v
+
+
 def r04_4(q, R, spec):
     rid = "R04.4"
     R.rule(rid, "two-column action decoding: TinyLine::action and action_string read column a then column b, an empty column is absent, "
@@ -609,15 +645,29 @@ def r04_4(q, R, spec):
         fn = fn_in(q, name, impl_ty="TinyLine")
         if not R.anchor(rid, "fn TinyLine::" + name, fn):
             continue
-        ms = [n for n in H.walk(fn["body"], into_closures=False) if n.get("k") == "match" and H.peel(n["scrut"]).get("k") == "tuple"]
-        if not R.anchor(rid, "TinyLine::%s: match (a, b)" % name, len(ms) == 1, sp=fn["sp"]):
-            continue
-        m = ms[0]
         # columns: decided as a table over the state of the two columns (absent / empty / non-empty), evaluated through whatever
         # shape the decoding has (`.filter(|x| !x.is_empty())`, `if x.is_empty() { None } ..`, a private helper of TinyLine):
         # a is built from the 1st `self.fields.next()` only, b from the 2nd only, and an absent or empty column gives None.
         helpers = {b["key"]: b for b in q.bodies if b.get("name") and (b.get("impl_ty") or "").endswith("tiny_line::TinyLine")
                    and not b.get("impl_trait") and b["name"] not in ("action", "action_string") and "body" in b}
+
+        def tuple_matches(b, depth=0):
+            """the `match (a, b)` of the function, or of the private TinyLine helper it hands the decoding to (the helper is inlined
+            by the evaluation below, with the conversion closure as its argument)"""
+            found = [n for n in H.walk(b["body"], into_closures=False) if n.get("k") == "match" and H.peel(n["scrut"]).get("k") == "tuple"]
+            if found or depth >= 2:
+                return found
+            for n in H.walk(b["body"], into_closures=False):
+                if n.get("k") in ("call", "mcall"):
+                    c = n.get("callee") or {}
+                    hb = helpers.get(c.get("inst_key") or c.get("key"))
+                    if hb is not None:
+                        found.extend(tuple_matches(hb, depth + 1))
+            return found
+        ms = tuple_matches(fn)
+        if not R.anchor(rid, "TinyLine::%s: match (a, b)" % name, len(ms) == 1, sp=fn["sp"]):
+            continue
+        m = ms[0]
         order_ok, empty_ok, got_cols = True, True, {}
         pe = None
         for st1 in ("absent", "empty", "text"):
@@ -640,10 +690,10 @@ def r04_4(q, R, spec):
                             return ("b", states[i] == "empty")
                     return None
 
-                pe = U.PathEval(inline=helpers, hooks={"next": next_hook, "is_empty": empty_hook})
+                pe = WatchEval({id(m["scrut"])}, inline=helpers, hooks={"next": next_hook, "is_empty": empty_hook})
                 out, env = pe.run_body(fn, [S("self")])
-                sv = U.PathEval().run(m["scrut"], dict(env))
-                vals = sv[1][1] if sv[0] == "ok" and sv[1][0] == "t" and len(sv[1][1]) == 2 else [T.sym("?"), T.sym("?")]
+                sv = pe.watched.get(id(m["scrut"]))      # the value of the scrutinee where the match stands (in `fn` or in the inlined helper)
+                vals = sv[1] if sv is not None and sv[0] == "t" and len(sv[1]) == 2 else [T.sym("?"), T.sym("?")]
                 shown = [T.show(x) for x in vals]
                 got_cols["%s,%s" % (st1, st2)] = [strip(x) for x in shown]
                 for i, stt in enumerate(states):
@@ -899,9 +949,8 @@ def r04_6(q, R, spec):
     if R.anchor(rid, "fn TinyLine::new", tl) and R.anchor(rid, "fn tiny_v2_diff::read", rdb):
         tp = C3.text_param(tl)
         rfn = U3.Fn(q, rdb, strict=True)
-        calls = [n for n in H.walk(rfn.root) if n.get("k") == "call" and (n.get("callee") or {}).get("key") == tl["key"]]
+        calls, chains = C3.tokeniser_call(q, rfn, tl, tp)
         if R.anchor(rid, "call of TinyLine::new(.., <line>) in tiny_v2_diff::read", len(calls) == 1 and tp is not None, sp=rdb["sp"]):
-            chains = C3.value_leaves(rfn, calls[0]["args"][tp])
             V = C3.Verbatim(q)
             bad = []
             for ch in chains:
@@ -1121,12 +1170,14 @@ def diff_levels(q, R, rid, spec, fn):
             if fname == "info" and dl == "MappingsDiff":
                 continue        # R04.3 diff:top-info-none
             if fname == "info":
-                ok = c.get("k") == "call" and H.callee_name(c) == "gen_diff_names" and len(c["args"]) == 1 and \
-                    (H.local_of(c["args"][0]) or (None,))[0] == ab_id and H.peel(e, refs=False).get("k") == "try"
+                # further arguments must be constants (the tables of R04.3 are evaluated with the constant all call sites pass)
+                ok = c.get("k") == "call" and H.callee_name(c) == "gen_diff_names" and len(c["args"]) >= 1 and \
+                    (H.local_of(c["args"][0]) or (None,))[0] == ab_id and H.peel(e, refs=False).get("k") == "try" and \
+                    all(H.const_value(a) is not None for a in c["args"][1:])
                 R.inst(rid, key, ok, sp=e["sp"], expect="gen_diff_names(<same-level ab>)?", got=H.render(c))
             elif fname == "javadoc":
-                ok = c.get("k") == "call" and H.callee_name(c) == "gen_diff_javadoc" and len(c["args"]) == 1 and \
-                    (H.local_of(c["args"][0]) or (None,))[0] == ab_id
+                ok = c.get("k") == "call" and H.callee_name(c) == "gen_diff_javadoc" and len(c["args"]) >= 1 and \
+                    (H.local_of(c["args"][0]) or (None,))[0] == ab_id and all(H.const_value(a) is not None for a in c["args"][1:])
                 R.inst(rid, key, ok, sp=e["sp"], expect="gen_diff_javadoc(<same-level ab>)", got=H.render(c))
             elif fname in spec["levels"][lvl]["children"]:
                 ok = False
